@@ -43,10 +43,10 @@ def check_c09(idx: Index, tier: str, res: Result) -> None:
     res.not_decided = ["value equality across channels (numeric)", "HTTP serialisation fidelity of jsonpickle/json for floats"]
     bs = idx.func(BPTK, "bptk.begin_session")
     assigns = single_assignments(bs.node)
-    dicts = [n for n in walk_no_nested(bs.node) if isinstance(n, ast.Dict) and {"step", "starttime", "stoptime", "dt"} <= {const_str(k) for k in n.keys}]
+    dicts = [n for n in walk_no_nested(bs.node) if isinstance(n, ast.Dict) and {"step", "starttime", "stoptime", "dt"} <= {const_str(k) for k in n.keys if k is not None}]
     if len(dicts) != 1:
         raise AnalysisError("begin_session: session_state literal not found")
-    st = {const_str(k): v for k, v in zip(dicts[0].keys, dicts[0].values)}
+    st = {const_str(k): v for k, v in zip(dicts[0].keys, dicts[0].values) if k is not None}
     for key in ("starttime", "stoptime", "dt"):
         def pred(n, key=key):
             return isinstance(n, ast.Attribute) and n.attr == key and isinstance(n.value, ast.Name) and "scenario" in n.value.id
@@ -65,6 +65,17 @@ def check_c09(idx: Index, tier: str, res: Result) -> None:
     res.check("DERIVE", "start = max over scenarios, stop = min over scenarios", bool(mx) and bool(mn), bs.loc(), bs.qual,
               "%s / %s" % (src(mx[0]) if mx else "?", src(mn[0]) if mn else "?"), "session start/stop are not the max/min over the selected scenarios",
               key="DERIVE/begin_session/max-min")
+
+    from .memo import selected_scenarios_without
+    bad = selected_scenarios_without(bs, "reset_scenario_cache")
+    res.check("DERIVE", "a session starts every selected scenario from a clean cache", not bad, bs.loc(), bs.qual, "reset_scenario_cache per selected scenario",
+              "a selected scenario can enter the session with the memo and live simulation of an earlier batch run or session: the steps then "
+              "report the old run's numbers and ignore step settings, while the batch channels report the registered scenario; path: %s"
+              % (bad[0] if bad else ""), key="DERIVE/begin_session/clean-start")
+    es = idx.func(BPTK, "bptk.end_session")
+    bad = selected_scenarios_without(es, "reset_scenario_cache")
+    res.check("DERIVE", "end_session leaves every session scenario with a clean cache", not bad, es.loc(), es.qual, "reset_scenario_cache per session scenario",
+              "end_session leaves a scenario with the session's memo: a later batch run reports the session's per-step settings", key="DERIVE/end_session/clean-end")
 
     # ---- (2)/(3) the step --------------------------------------------------------------------------------------------
     rs = idx.func(BPTK, "bptk.run_step")
@@ -193,7 +204,18 @@ def check_c09(idx: Index, tier: str, res: Result) -> None:
               "the flat results endpoint does not delegate", key="PASSTHROUGH/_flat_session_results_resource")
 
     # ---- (6) session_state keys -----------------------------------------------------------------------------------------------------------
-    written = {const_str(k) for k in dicts[0].keys}
+    written = {const_str(k) for k in dicts[0].keys if k is not None}
+    for k, v in zip(dicts[0].keys, dicts[0].values):
+        if k is None:      # ** unpack: keys of a module-level dict literal (possibly through deepcopy()/dict()/.copy())
+            base = v
+            while isinstance(base, ast.Call) and base.args:
+                base = base.args[0]
+            if isinstance(base, ast.Call) and isinstance(base.func, ast.Attribute):
+                base = base.func.value
+            if isinstance(base, ast.Name):
+                for st in idx.modules[BPTK].tree.body:
+                    if isinstance(st, ast.Assign) and isinstance(st.targets[0], ast.Name) and st.targets[0].id == base.id and isinstance(st.value, ast.Dict):
+                        written |= {const_str(x) for x in st.value.keys if x is not None}
     # keys added later by stores
     for fi in idx.all_funcs("BPTK_Py/"):
         for n in walk_no_nested(fi.node):
